@@ -35,6 +35,17 @@ Proof.
 Qed.
 Print Assumptions C03_canonical_ledger.
 
+(* the same for the further public types of Ledger/Schemas.v (stand-alone certificate / action / script members, PoolParams,
+   Committee, PlutusMap, ConstrPlutusData, BigInt, Redeemer, ...) *)
+Theorem C03_canonical_ledger_more : forall d s, In s (ledger_schemas_more d) -> forall v, wfv s v = true ->
+  canon_bytes true true (enc s v) = true /\ heads_shortest (enc s v) = true /\ chunks_strict (to_item s v) = true.
+Proof.
+  intros d s Hin v Hv.
+  destruct (enc_canonical s v (proj1 (Forall_forall _ _) (ledger_schemas_more_wf d) s Hin) Hv) as (A & B & C & _).
+  repeat split; assumption.
+Qed.
+Print Assumptions C03_canonical_ledger_more.
+
 (* (2) every set site of every schema-valid value is written as tag 258 + definite array of pairwise distinct items *)
 Theorem C03_sets : forall s v, wfs s = true -> wfv s v = true -> sets_emitted s v = true.
 Proof. exact enc_sets. Qed.
@@ -151,7 +162,8 @@ Proof. vm_compute. reflexivity. Qed.
 
 Definition ex_body : val :=
   VStruct [Some (VList [VList [VBytes (repeat 7 32); VNat 0]; VList [VBytes (repeat 9 32); VNat 65535]]);
-           Some (VList [VAlt 0 (VList [VBytes (97 :: repeat 1 28); VAlt 0 (VNat 2000000)])]); Some (VNat 170000);
+           Some (VList [VAlt 0 (VAlt 0 (VList [VBytes (97 :: repeat 1 28); VAlt 0 (VNat 2000000)]));
+                        VAlt 0 (VAlt 1 (VList [VBytes (repeat 3 32); VBytes (97 :: repeat 2 28); VAlt 0 (VNat 1500000)]))]); Some (VNat 170000);
            Some (VNat 5); None; None; None; None; None; None; None; None; None; None; None; None; None;
            None; None; None; None].
 Example C03_premises_satisfiable :
